@@ -30,6 +30,7 @@ import CtyModel.Lemmas.d13Seq
 import CtyModel.Lemmas.d13Index
 import CtyModel.Lemmas.d13Map
 import CtyModel.Lemmas.d13Misc
+import CtyModel.Lemmas.d13Product
 namespace CtyModel
 namespace C13
 open Stdlib Value
@@ -347,6 +348,40 @@ theorem setproduct_empty_and_arity (E : Env) (lists : List (Ty × List Payload))
         .ok ⟨.list (.tuple (lists.map (·.1))), .seq []⟩) ∧
     (args.length < 2 → Fails (setProductType E args)) :=
   ⟨setProductImpl_lists_empty E lists, setProductType_few E args⟩
+
+/-- **setproduct of known non-empty SETS**: `cty.SetVal` of the rows of the row-major
+Cartesian product of the members in iteration order — a set of tuples of the element
+types, which is also the type the `Type` callback predicts -/
+theorem setproduct_sets (E : Env) (sets : List SetArg) (h2 : 2 ≤ sets.length)
+    (hne : ∀ s ∈ sets, s.2.2 ≠ []) (he : ∀ s ∈ sets, s.1.equals s.1 = true)
+    (hk : ∀ s ∈ sets, Payload.whollyKnownL s.2.2 = true)
+    (hm : ∀ s ∈ sets, ∀ p ∈ s.2.2, p.containsMarked = false)
+    (hh : ∀ row ∈ productRows E sets, (E.hash (.tuple (sets.map (·.1))) row).isSome = true) :
+    setProductImpl E (setArgs3 sets) (.set (.tuple (sets.map (·.1)))) =
+      .ok (ofSetImpl (.tuple (sets.map (·.1)))
+        (SetImpl.fromList (setRules E (.tuple (sets.map (·.1)))) (productRows E sets))) ∧
+    setProductType E (setArgs3 sets) = .ok (.set (.tuple (sets.map (·.1)))) :=
+  ⟨setProductImpl_sets E sets hne he hk hm hh, setProductType_sets E sets h2⟩
+
+/-- **…against the reference**: for admitted members (plain tuple type, hash-coherent
+numbers, rows hashed as the hash model hashes them) the result is laid out under the
+representation invariant, its members are rows of the product, every row is
+represented up to `RawEquals`, and — the members of each argument being pairwise
+different, as the members of a set are — it has exactly `∏ lengths` members -/
+theorem setproduct_sets_reference (E : Env) (ns : List Num) (sets : List SetArg)
+    (hw : (Ty.tuple (sets.map (·.1))).wf = true) (hp : (Ty.tuple (sets.map (·.1))).plain = true)
+    (hc : HashCoherentNums ns = true)
+    (hne : ∀ s ∈ sets, s.2.2 ≠ []) (he : ∀ s ∈ sets, s.1.equals s.1 = true)
+    (hm : ∀ s ∈ sets, ∀ p ∈ s.2.2, p.member s.1 ns = true)
+    (hh : ∀ row ∈ productRows E sets, E.hashAgrees (.tuple (sets.map (·.1))) row) :
+    ∃ s : SetImpl Payload,
+      setProductImpl E (setArgs3 sets) (.set (.tuple (sets.map (·.1)))) = .ok (ofSetImpl (.tuple (sets.map (·.1))) s) ∧
+      SetImpl.Inv (setRules E (.tuple (sets.map (·.1)))) s ∧
+      (∀ m ∈ SetImpl.values s, m ∈ productRows E sets) ∧
+      (∀ row ∈ productRows E sets, Spec.memBy (rawB (.tuple (sets.map (·.1)))) (SetImpl.values s) row) ∧
+      ((∀ s ∈ sets, s.2.2.Pairwise (BothFalse s.1)) →
+        SetImpl.length s = (sets.map (·.2.2.length)).foldr (· * ·) 1) :=
+  setProduct_sets_spec E ns sets hw hp hc hne he hm hh
 
 /-! ## range -/
 
@@ -1056,6 +1091,17 @@ example : Spec.firstOccs (rawB .string) [.s "a", .s "b", .s "a", .null, .null] =
   simp [Spec.firstOccs, Spec.firstOccsFrom, rawB]
 example : notMapOrObject ⟨.list .string, .seq []⟩ = true ∧ notMapOrObject ⟨.map .string, .smap [] []⟩ = false := by decide
 example : Unify.tyDepth (.list (.tuple [.number, .string])) < 48 := by decide
+example : ∃ s : SetImpl Payload,
+    setProductImpl modelEnv (setArgs3 [(.string, [1829654686], [.s "a"]), (.number, [450215437], [.n (Num.ofInt 2 64)])])
+      (.set (.tuple [.string, .number])) = .ok (ofSetImpl (.tuple [.string, .number]) s) ∧ SetImpl.length s = 1 :=
+  have ⟨s, h1, _, _, _, h5⟩ := setproduct_sets_reference modelEnv [Num.ofInt 2 64]
+    [(.string, [1829654686], [.s "a"]), (.number, [450215437], [.n (Num.ofInt 2 64)])]
+    rfl rfl (by decide +kernel) (by decide) (by decide +kernel) (by decide +kernel)
+    (fun row hr => modelEnv_hashAgrees _ row
+      ((by decide +kernel : ∀ row ∈ productRows modelEnv
+        [(.string, [1829654686], [.s "a"]), (.number, [450215437], [.n (Num.ofInt 2 64)])],
+        (Value.hash ⟨.tuple [.string, .number], row⟩).isOk = true) row hr))
+  ⟨s, h1, h5 (by simp)⟩
 
 end C13
 end CtyModel
